@@ -133,9 +133,18 @@ def main_source(main_imports):
     return "\n".join(L) + "\n"
 
 
+# module paths a host file system may well contain and that an interpreter might be tempted to use for itself
+SPECIAL_NAMES = ["core", "std", "prelude", "builtins", "object", "yarel", "string", "iter", "class_store", "lib"]
+
+
 def gen_case(rng):
     n = 1 + rng.below(4)
-    names = NAMES[:n]
+    names = list(NAMES[:n])
+    for i in range(n):
+        if rng.chance(1, 4):
+            nm = rng.choice(SPECIAL_NAMES)
+            if nm not in names:
+                names[i] = nm
     graph = {}
     for nm in names:
         st = rng.choice(STATUSES)
